@@ -126,6 +126,10 @@ class Action(EvalableModel):
     """ Guard: True only while the model is actively populating ``_n_calls``. Reading
     ``n_calls`` outside of that window raises. Set via ``_set_n_calls``. """
 
+    _calculated: frozenset = PrivateAttr(default=frozenset())
+    """ Which of ``energy`` / ``throughput`` already hold the result of a cost
+    calculation (scale factors applied), so that they are not scaled again. """
+
     @property
     def n_calls(self) -> int | float:
         """
@@ -256,6 +260,11 @@ class Component(Spatialable):
 
     name: str
     """ The name of this `Component`. """
+
+    _calculated: frozenset = PrivateAttr(default=frozenset())
+    """ Which of ``area`` / ``leak_power`` already hold the result of a cost calculation
+    (scale factors and ``n_parallel_instances`` applied), so that recalculating costs
+    does not scale them again. """
 
     component_class: Optional[str] = None
     """ The class of this `Component`. Used if an energy or area model needs to be
@@ -537,6 +546,9 @@ class Component(Spatialable):
 
         for action in self.actions:
             messages.append(f"Calculating energy for {self.name} action {action.name}.")
+            if "energy" in action._calculated:
+                messages.append(f"Using previously calculated {action.energy=}")
+                continue
             if action.energy is not None:
                 energy = action.energy
                 messages.append(f"Setting {self.name} energy to {action.energy=}")
@@ -566,6 +578,7 @@ class Component(Spatialable):
                 energy *= action.energy_scale
                 messages.append(f"Scaling {self.name} energy by {action.energy_scale=}")
             action.energy = energy
+            action._calculated = action._calculated | {"energy"}
             if action.energy < 0:
                 logging.warning(
                     f"Component {self.name} action {action.name} has negative energy: "
@@ -613,6 +626,9 @@ class Component(Spatialable):
             self: Self = self._copy_for_component_modeling()
 
         messages = self.component_modeling_log
+        if "leak_power" in self._calculated:
+            messages.append(f"Using previously calculated {self.leak_power=}")
+            return self
         if self.leak_power is not None:
             leak_power = self.leak_power
             messages.append(f"Using predefined leak power value {self.leak_power=}")
@@ -633,6 +649,7 @@ class Component(Spatialable):
             leak_power *= self.n_parallel_instances
             messages.append(f"Scaling leak power by {self.n_parallel_instances=}")
         self.leak_power = leak_power
+        self._calculated = self._calculated | {"leak_power"}
         if self.leak_power < 0:
             logging.warning(
                 f"Component {self.name} has negative leak power: {self.leak_power}"
@@ -679,6 +696,9 @@ class Component(Spatialable):
             self: Self = self._copy_for_component_modeling()
 
         messages = self.component_modeling_log
+        if "area" in self._calculated:
+            messages.append(f"Using previously calculated {self.area=}")
+            return self
         if self.area is not None:
             area = self.area
             messages.append(f"Using predefined area value {self.area=}")
@@ -699,6 +719,7 @@ class Component(Spatialable):
             area *= self.n_parallel_instances
             messages.append(f"Scaling area by {self.n_parallel_instances=}")
         self.area = area
+        self._calculated = self._calculated | {"area"}
         if self.area < 0:
             logging.warning(f"Component {self.name} has negative area: {self.area}")
         return self
@@ -736,6 +757,9 @@ class Component(Spatialable):
             messages.append(
                 f"Calculating throughput for {self.name} action {action.name}."
             )
+            if "throughput" in action._calculated:
+                messages.append(f"Using previously calculated {action.throughput=}")
+                continue
             if action.throughput is not None:
                 throughput = action.throughput
                 messages.append(
@@ -776,6 +800,7 @@ class Component(Spatialable):
                     f"Multiplying {self.name} throughput by {self.n_parallel_instances=}"
                 )
             action.throughput = throughput
+            action._calculated = action._calculated | {"throughput"}
             if action.throughput < 0:
                 logging.warning(
                     f"Component {self.name} action {action.name} has negative throughput: "
